@@ -114,7 +114,16 @@ impl StopController {
                     let state2 = dfa.transition(state, b);
                     // println!("state: {:?} -{:?}-> {:?}", state, b as char, state2);
                     state = state2;
-                    assert!(!state.is_dead());
+                    if state.is_dead() {
+                        // The token stream is not valid UTF-8 at this byte (the prefix regex
+                        // only matches text), so no stop match can contain it: start over,
+                        // giving this byte the chance to begin a new match.
+                        state = dfa.transition(rx.initial_state, b);
+                        if state.is_dead() {
+                            state = rx.initial_state;
+                            continue;
+                        }
+                    }
                     if state.has_lowest_match() {
                         self.is_stopped = true;
                         rx.state = state;
